@@ -17,6 +17,16 @@ CLAIMED = {
              "C12), zero-valued limits treated as unset (as the code does), DelayManager/PSU/BCP client-view "
              "contracts. Platform back ends themselves are outside.",
         ref="4.C08"),
+    "C20": dict(
+        text="Credit arithmetic proved for all balances, coin values, tier positions and configurations: "
+             "_add_credit_units yields exactly min(old + units + pricing-table bonus, max) (loop invariant over the "
+             "table walk), never negative, never above the maximum; start/add-player requests are approved iff a "
+             "full game price is available; _player_added deducts exactly one game price; audits change only the "
+             "coin-count/earnings keys by exactly 1/value; clearing rules.",
+        note="Trusted: pyvc encoding, z3/cvc5, machine-variable and settings stores behave as maps, template "
+             "evaluation is a constant number, pricing table entries >= 0 for positions 1..wrap (establishment by "
+             "_calculate_pricing_tiers not yet under contract), no re-entrancy between approval and player_added.",
+        ref="4.C20"),
 }
 
 NA = {}
